@@ -810,7 +810,7 @@ class Contract:
     def __init__(self, qname, params=None, ghosts=None, requires=None, returns=None, ensures=None,
                  raises=None, may_raise=(), raises_only=None, modifies=None, props=(), setup=None,
                  old=None, pure_result=False, notes='', concretize=None, replay=None, trusted=False,
-                 cover=True, inline=False, event=None, yields=None):
+                 cover=True, inline=False, event=None, yields=None, event_on_raise=None):
         self.qname = qname
         self.params = params or {}
         self.ghosts = ghosts or {}
@@ -830,6 +830,7 @@ class Contract:
         self.cover = cover
         self.yields = yields                # generator functions: shape of the items (ListOf(...)) for call sites
         self.event = event                  # ghost event emitted at call sites that use the contract
+        self.event_on_raise = event_on_raise    # ghost event (name, exception) emitted when the contract raises at a call site
         self.inline = inline                # verified, but call sites interpret the body (tiny helpers)
         self.func = None
         self.owner = None
